@@ -141,7 +141,9 @@ func scenarios() []scenario {
 			})},
 		scenario{"srgb+displayp3/encode", par(
 			func() string { return fmt.Sprint(srgb.To16Bit(0.3)) },
-			func() string { return fmt.Sprint(displayp3.EncodeColor(color.RGBA64{R: 100, G: 20000, B: 65535, A: 65535})) })},
+			func() string {
+				return fmt.Sprint(displayp3.EncodeColor(color.RGBA64{R: 100, G: 20000, B: 65535, A: 65535}))
+			})},
 		scenario{"all spaces/first decode", par(
 			func() string { return f32(srgb.From16Bit(5)) },
 			func() string { return f32(adobergb.From16Bit(5)) },
